@@ -98,40 +98,46 @@ def rotateSegments (s : St) (next : Int) : St :=
   let s := rotateParts s next
   let gaps := if s.finished = 0 then 7 else s.gaps
   let segs := s.segs ++ [s.openParts]
-  let (gaps, segs) :=
-    if gaps + segs.length > s.cfg.segCount then
-      (if gaps > 0 then (gaps - 1, segs) else (gaps, segs.drop 1))
-    else (gaps, segs)
-  { s with gaps := gaps, segs := segs, finished := s.finished + 1, openParts := [],
+  -- `len(s.segments) > segmentCount`: drop the head entry (gap entries come first)
+  let over := decide (gaps + segs.length > s.cfg.segCount)
+  let gaps' := if over && decide (gaps > 0) then gaps - 1 else gaps
+  let segs' := if over && !decide (gaps > 0) then segs.drop 1 else segs
+  { s with gaps := gaps', segs := segs', finished := s.finished + 1, openParts := [],
            segStart := next, partStart := next }
+
+/-- "create first segment" of `fmp4WriteSample` (`createFirstSegment(timestampToDuration(sample.dts), …)`) -/
+def ensureSeg (s : St) (old : Sample) : St :=
+  if s.hasSeg then s else
+    { s with hasSeg := true, segStart := timestampToDuration old.dts s.cfg.rate,
+             partStart := timestampToDuration old.dts s.cfg.rate }
+
+/-- `fmp4AdjustPartDuration(sampleDuration)` (Low-Latency variant) -/
+def adjust (s : St) (sd : Int) : St :=
+  if s.freeze || sd == 0 || s.durSet.contains sd then s
+  else
+    let set := s.durSet ++ [sd]
+    { s with durSet := set, adjusted := findCompatiblePartDuration s.cfg.partMin set }
+
+/-- the two tests at the end of `fmp4WriteSample`: switch segment, else switch part -/
+def switchStep (s : St) (new : Sample) : St :=
+  let nextNs := timestampToDuration new.dts s.cfg.rate
+  if new.ra && decide (nextNs - s.segStart ≥ s.cfg.segMin) then
+    { rotateSegments s nextNs with freeze := true }
+  else if decide (nextNs - s.partStart ≥ s.adjusted) then
+    rotateParts s nextNs
+  else s
 
 /-- One call of `fmp4WriteSample` on the leading track of a Low-Latency muxer
 (`dts` in ticks as passed by the caller, i.e. before the 10 s offset). -/
 def write (s : St) (dts : Int) (ra : Bool) : St :=
-  let r := s.cfg.rate
-  let dts := dts + durationToTimestamp (10 * secNs) r
+  let dts := dts + durationToTimestamp (10 * secNs) s.cfg.rate
   if dts < 0 then s else
   let new : Sample := { dts := dts, ra := ra }
   match s.lookahead with
   | none => { s with lookahead := some new }
   | some old =>
-    let s := { s with lookahead := some new }
-    let dur := new.dts - old.dts
-    let s := if s.hasSeg then s else
-      { s with hasSeg := true, segStart := timestampToDuration old.dts r,
-               partStart := timestampToDuration old.dts r }
-    -- fmp4AdjustPartDuration
-    let sd := timestampToDuration dur r
-    let s :=
-      if s.freeze || sd == 0 || s.durSet.contains sd then s
-      else
-        let set := s.durSet ++ [sd]
-        { s with durSet := set, adjusted := findCompatiblePartDuration s.cfg.partMin set }
-    let nextNs := timestampToDuration new.dts r
-    if new.ra && decide (nextNs - s.segStart ≥ s.cfg.segMin) then
-      { rotateSegments s nextNs with freeze := true }
-    else if decide (nextNs - s.partStart ≥ s.adjusted) then
-      rotateParts s nextNs
-    else s
+    let s := ensureSeg { s with lookahead := some new } old
+    let s := adjust s (timestampToDuration (new.dts - old.dts) s.cfg.rate)
+    switchStep s new
 
 end Hls.PartDur
